@@ -49,6 +49,7 @@ def _case(draw, tier):
                 break
     return {
         "desc": desc,
+        "invoke": draw(gen.invoke()),
         "all": draw(st.sampled_from([True, True, False])),
         "force": draw(st.booleans()),
         "patterns": draw(st.one_of(st.just([]), gen.patterns(names), gen.patterns(names))),
@@ -67,7 +68,7 @@ def run_case(case):
     names = [t.name for t in R.targets]
     cfg = {"use_spec_hashes": True} if case["hashing"] else {}
     viols, labels = [], set()
-    with project.Project(desc, backend="slurm", config=cfg) as proj:
+    with project.Project(desc, backend="slurm", config=cfg, invoke=case.get("invoke")) as proj:
         sources = {p: (t if t is not None else 1) for p, t in desc["files"].items() if p not in R.producers}
         proj.set_files(sources)
         hist.prepopulate(proj, R, {})
